@@ -1,1 +1,127 @@
-//! gensam — stub (to be implemented).
+//! gensam — the shared SAM data-model generator of the monitoring harness.
+//!
+//! Everything is built around *plain descriptions* owned by the harness (`RecDesc`, `AuxDesc`,
+//! `HeaderDesc`: byte strings, integers, op lists — no noodles type inside). Generators emit
+//! descriptions; conversions turn a description into the noodles value handed to the code under
+//! observation; oracles (expected normal forms, independent SAM text, independent BAM decoding,
+//! spans, bins) are computed from the description, never by asking noodles.
+//!
+//! # API (keep stable; other monitors depend on it)
+//!
+//! Descriptions (`desc`): `RecDesc { name, flags, ref_id, pos (1-based), mapq, cigar: Vec<(op char,
+//! len)>, mate_ref_id, mate_pos, tlen, seq, qual (raw scores), aux: Vec<([u8;2], AuxDesc)> }`,
+//! `AuxDesc::{A,I8,U8,I16,U16,I32,U32,F,Z,H,BI8,BU8,BI16,BU16,BI32,BU32,BF}`,
+//! `HeaderDesc { hd: Option<HdDesc{version,tags}>, sq: Vec<SqDesc{name,len,tags}>, rg/pg:
+//! Vec<MapDesc{id,tags}>, co }`, `span(&RecDesc) -> Option<(start,end)>` (1-based inclusive, end =
+//! POS + max(Σ M/D/N/=/X, 1) − 1), `bam_bases(seq)` (BAM 4-bit alphabet normal form),
+//! `RecDesc::{read_len, ref_len}`.
+//!
+//! Generators (`generate`), pure functions of the `vcore::Rng` state:
+//! * `gen_header(&mut Rng, &HeaderOpts) -> HeaderDesc` (`HeaderOpts::full()`, `::plain(n)`);
+//! * `gen_record(&mut Rng, &HeaderDesc, &RecOpts) -> RecDesc` with `RecOpts::full()` (the whole C05
+//!   quantifier), `::sam_text()` (what SAM text can carry and BAM accepts), `::common()` (the
+//!   safe/common sub-model: consistent flags, alignments inside the reference, ACGTN); fields
+//!   `max_seq_len`, `huge_cigar_permille` (CIGARs of 65535/65536/65537/70000 ops), `max_aux`,
+//!   `max_array_len`, `nonfinite_floats`;
+//! * `gen_invalid_record(&mut Rng, &HeaderDesc, &RecOpts, Invalid) -> RecDesc`: a valid record with
+//!   one out-of-range aspect (`INVALID_KINDS`, `Invalid::cannot_fit_bam`);
+//! * `boundary_records(&HeaderDesc, Level, huge) -> Vec<RecDesc>`: deterministic boundary corpus;
+//! * `coordinate_sorted_set(&mut Rng, &HeaderDesc, n, &RecOpts) -> Vec<RecDesc>`: records in
+//!   coordinate order straddling bin edges, long-before-short, dense runs, placed/unplaced unmapped;
+//! * `rec_class(&RecDesc) -> String`: coarse class for distinct-case fingerprints.
+//!
+//! Conversions (`conv`): `to_record_buf(&RecDesc, &HeaderDesc) -> RecordBuf`, `to_header(&HeaderDesc)
+//! -> sam::Header` (through noodles' builders/setters), and the inverses `describe_record(&RecordBuf)`,
+//! `describe_header(&sam::Header)`; `describe_alignment_record(&impl sam::alignment::Record, &Header)
+//! -> Result<RecDesc, String>` (every accessor of the trait, for lazy records), `describe_lazy_value`;
+//! `to_value`/`describe_value`, `kind_of`/`char_of`.
+//!
+//! Independent SAM text (`text`): `to_sam_line`, `sam_columns`, `aux_text`,
+//! `aux_text_is_canonical`, `header_text`, `parse_sam_line` (dumb TAB-splitting reader).
+//!
+//! Independent BAM (`bam`): `reg2bin(beg,end)` (SAMv1 5.3), `expected_bin(&RecDesc)`,
+//! `split_bam_stream(uncompressed) -> BamStream{text, refs, records}`, `split_bam_record(body) ->
+//! BamParts{core: BamCore, name/cigar/seq/qual/aux ranges}`, `decode_bam_record(body) -> (BamParts,
+//! RecDesc as stored, spare nibble)`.
+//!
+//! Comparison (`cmp`): `bam_normal_form`, `sam_normal_form`, `diff_records(exp, got, &Cmp) ->
+//! Option<Diff{field, detail}>` with `Cmp::EXACT` (declared aux types, float bits) and `Cmp::TEXT`
+//! (integers by value). `HeaderDesc` is `Eq`.
+
+pub mod bam;
+pub mod cmp;
+pub mod conv;
+pub mod desc;
+pub mod generate;
+pub mod text;
+
+pub use bam::{BamCore, BamParts, BamStream, decode_bam_record, expected_bin, reg2bin, split_bam_record, split_bam_stream};
+pub use cmp::{Cmp, Diff, bam_normal_form, diff_records, sam_normal_form};
+pub use conv::{describe_alignment_record, describe_header, describe_lazy_value, describe_record, to_header, to_record_buf};
+pub use desc::{AuxDesc, BAM_BASES, CIGAR_OPS, HdDesc, HeaderDesc, MapDesc, RecDesc, SqDesc, Tag2, bam_bases, span};
+pub use generate::{
+    AUX_KINDS, HeaderOpts, INVALID_KINDS, Invalid, Level, RecOpts, boundary_records, coordinate_sorted_set, gen_header, gen_invalid_record,
+    gen_record, rec_class,
+};
+pub use text::{aux_text, aux_text_is_canonical, header_text, parse_sam_line, sam_columns, to_sam_line};
+
+#[cfg(test)]
+mod tests {
+    use super::*;
+    use vcore::Rng;
+
+    #[test]
+    fn reg2bin_examples() {
+        assert_eq!(reg2bin(-1, 0), 4680);
+        assert_eq!(reg2bin(0, 1), 4681);
+        assert_eq!(reg2bin(0, 1 << 14), 4681);
+        assert_eq!(reg2bin(0, (1 << 14) + 1), 585);
+        assert_eq!(reg2bin((1 << 29) - 1, 1 << 29), 4681 + 32767);
+        assert_eq!(reg2bin(0, 1 << 29), 0);
+    }
+
+    #[test]
+    fn description_roundtrips_through_own_text_and_model() {
+        let mut rng = Rng::new(1, 2, 3);
+        for i in 0..300 {
+            let h = gen_header(&mut rng, &HeaderOpts::full());
+            let nh = to_header(&h);
+            assert_eq!(describe_header(&nh), h, "header {i}");
+            for o in [RecOpts::full(), RecOpts::sam_text(), RecOpts::common()] {
+                let r = gen_record(&mut rng, &h, &o);
+                let rb = to_record_buf(&r, &h);
+                let back = describe_record(&rb);
+                let exp = RecDesc { mapq: r.mapq.filter(|q| *q != 255), ..r.clone() };
+                assert!(diff_records(&exp, &back, &Cmp::EXACT).is_none(), "{:?}", diff_records(&exp, &back, &Cmp::EXACT));
+                if o.level != Level::Full {
+                    let line = to_sam_line(&r, &h);
+                    let p = parse_sam_line(&line, &h).unwrap();
+                    let d = diff_records(&sam_normal_form(&r), &p, &Cmp::TEXT);
+                    assert!(d.is_none(), "{d:?}\n{}", String::from_utf8_lossy(&line));
+                }
+            }
+        }
+    }
+
+    #[test]
+    fn sorted_sets_are_sorted_and_inside() {
+        let mut rng = Rng::new(5, 5, 5);
+        for _ in 0..20 {
+            let h = gen_header(&mut rng, &HeaderOpts { min_refs: 1, max_refs: 6, big_refs: true, rich: false, hd: Some(true) });
+            let v = coordinate_sorted_set(&mut rng, &h, 300, &RecOpts::common());
+            assert!(v.len() >= 300);
+            let key = |r: &RecDesc| (r.ref_id.map(|x| x as i64).unwrap_or(i64::MAX), r.pos.unwrap_or(0));
+            for w in v.windows(2) {
+                assert!(key(&w[0]) <= key(&w[1]));
+            }
+            for r in &v {
+                if let (Some(id), Some((_, e))) = (r.ref_id, span(r)) {
+                    assert!(e <= h.sq[id].len, "{r:?}");
+                }
+                if !r.seq.is_empty() && !r.cigar.is_empty() {
+                    assert_eq!(r.read_len() as usize, r.seq.len());
+                }
+            }
+        }
+    }
+}
